@@ -75,7 +75,7 @@ theorem wAfter_succ (d : Data) (us w0 : List (List Rat)) (ru rw : Mat) (n : ℕ)
 
 /-- the hypotheses of `ascent_step` hold along the whole loop -/
 theorem loop_inv (d : Data) (us w0 : List (List Rat)) (ru rw : Mat)
-    (hu : ∀ i a, 0 ≤ matOf us i a) (hw0 : ∀ a b, 0 ≤ matOf w0 a b) (hA : ∀ e, 0 < d.A e)
+    (hu : ∀ i a, 0 ≤ matOf us i a) (hw0 : ∀ a b, 0 ≤ matOf w0 a b) (hA : ∀ e < d.E, 0 < d.A e)
     (hr : ∀ a b, 0 ≤ rw a b)
     (hlam : ∀ e < d.E, 0 < poisson d.N d.K (matOf us) (matOf w0) (d.edge e))
     (hden : ∀ a < d.K, ∀ b < d.K, 0 < wDen d.N (matOf us) a b + rw a b) (n : ℕ) :
@@ -87,14 +87,14 @@ theorem loop_inv (d : Data) (us w0 : List (List Rat)) (ru rw : Mat)
     obtain ⟨h1, h2⟩ := ih
     rw [wAfter_succ]
     constructor
-    · exact matOf_toRows_nonneg _ _ _ (wUpdate_nonneg d _ _ rw hu h1 (fun e => (hA e).le) hr)
+    · exact matOf_toRows_nonneg _ _ _ (wUpdate_nonneg d _ _ rw hu h1 (fun e he => (hA e he).le) hr)
     · intro e he
       rw [poisson_congr d.N d.K (matOf us) _ (wUpdate d (matOf us) (matOf (wAfter d us w0 ru rw n)) rw)
         (fun a ha b hb => matOf_toRows_in _ _ _ a b ha hb)]
       exact poisson_pos_after d _ _ rw hu h1 hA hr h2 hden e he
 
 theorem loop_ascent (d : Data) (us w0 : List (List Rat)) (ru rw : Mat)
-    (hu : ∀ i a, 0 ≤ matOf us i a) (hw0 : ∀ a b, 0 ≤ matOf w0 a b) (hA : ∀ e, 0 < d.A e)
+    (hu : ∀ i a, 0 ≤ matOf us i a) (hw0 : ∀ a b, 0 ≤ matOf w0 a b) (hA : ∀ e < d.E, 0 < d.A e)
     (hr : ∀ a b, 0 ≤ rw a b)
     (hlam : ∀ e < d.E, 0 < poisson d.N d.K (matOf us) (matOf w0) (d.edge e))
     (hden : ∀ a < d.K, ∀ b < d.K, 0 < wDen d.N (matOf us) a b + rw a b) (n : ℕ) :
